@@ -35,6 +35,7 @@ NODIAL     == -900010   \* observation only: no connection attempt was made
 NOSEND     == -900011   \* observation only: the request was never written
 NOTSTARTED == -900012   \* model only: Timeout._start_connect is None
 NOD        == -900013   \* no connect duration was consumed
+NOWAIT     == -900014   \* observation only: the response wait never began
 INF        == 2000000000
 
 IsNum(v)    == v > -900000
@@ -81,16 +82,17 @@ RuleRead(cfg, elapsed, D) ==
 \*   pre     every settimeout before the request bytes were written (connect / send stage)
 \*   tSend   clock when the request was written (NOSEND), sent  the server saw the request
 \*   rds     every settimeout after the request was written (response-wait stage)
+\*   rwait   the timeout in force on the socket when the response wait began (NOWAIT: it never began)
 \*   waitC / waitR   time spent waiting in connect / in the response wait
 \*   d, cmode ("ok" | "timeout" | "none"), smode ("keep" | "close" | "silent" | "none"): environment
 \*   outcome class, tEnd clock when the call returned / raised
 ConnVals(x) == (IF x.dial = NODIAL THEN {} ELSE {x.dial}) \cup Range(x.pre)
-ReadVals(x) == Range(x.rds)
+ReadVals(x) == Range(x.rds) \cup (IF x.rwait = NOWAIT THEN {} ELSE {x.rwait})
 Elapsed(x)  == x.tSend - x.t0
 
 CInvalidRejected(ps, D, x) ==
     ~SrcValid(x.src) => /\ x.outcome = "ValueError" /\ x.dial = NODIAL /\ x.pre = <<>> /\ x.rds = <<>>
-                        /\ ~x.sent /\ x.tEnd = x.t0
+                        /\ ~x.sent /\ x.rwait = NOWAIT /\ x.tEnd = x.t0
 CValidAccepted(ps, D, x) == SrcValid(x.src) => x.outcome # "ValueError"
 
 \* never negative, never zero (zero would make the socket non-blocking), never a non-number
@@ -113,17 +115,21 @@ CRequestOverridesPool(ps, D, x) ==
       /\ x.sent => \A v \in ReadVals(x) : v = RuleRead(Norm(x.src), Elapsed(x), D)
 
 CConnectIsMin(ps, D, x) ==
-    SrcValid(x.src) => \A v \in ConnVals(x) : v = RuleConnect(EffCfg(ps, x.src), D)
+    (SrcValid(x.src) /\ x.dial # NODIAL) => x.dial = RuleConnect(EffCfg(ps, x.src), D)
+
+\* until the request has been written the socket (fresh or reused) carries the connect-phase timeout
+CSendStageUsesConnect(ps, D, x) ==
+    SrcValid(x.src) => \A v \in Range(x.pre) : v = RuleConnect(EffCfg(ps, x.src), D)
 
 CReadIsMinRemaining(ps, D, x) ==
     (SrcValid(x.src) /\ x.sent) =>
       LET rr == RuleRead(EffCfg(ps, x.src), Elapsed(x), D) IN
-      IF rr = 0 THEN x.rds = <<>> ELSE x.rds # <<>> /\ \A v \in ReadVals(x) : v = rr
+      IF rr = 0 THEN x.rds = <<>> /\ x.rwait = NOWAIT ELSE x.rwait = rr /\ \A v \in ReadVals(x) : v = rr
 
 \* "a remaining read budget of zero raises ReadTimeoutError without waiting"
 CZeroRaisesWithoutWaiting(ps, D, x) ==
     (SrcValid(x.src) /\ x.sent /\ RuleRead(EffCfg(ps, x.src), Elapsed(x), D) = 0) =>
-      /\ x.outcome = "ReadTimeoutError" /\ x.rds = <<>> /\ x.waitR = 0 /\ x.tEnd = x.tSend
+      /\ x.outcome = "ReadTimeoutError" /\ x.rds = <<>> /\ x.rwait = NOWAIT /\ x.waitR = 0 /\ x.tEnd = x.tSend
 
 \* the socket waits themselves: a connect that times out waited no longer than the connect timeout,
 \* a response wait no longer than the read timeout, and there is no other waiting
@@ -137,7 +143,8 @@ CWaitsWithinTimeouts(ps, D, x) ==
 ExpectedOutcome(ps, D, x) ==
     IF x.cmode = "timeout" THEN "ConnectTimeoutError"
     ELSE IF x.sent /\ RuleRead(EffCfg(ps, x.src), Elapsed(x), D) = 0 THEN "ReadTimeoutError"
-    ELSE IF x.smode = "silent" THEN "ReadTimeoutError"
+    ELSE IF x.smode = "silent" THEN     \* None = wait forever: legal, the harness gives up on it
+         IF RuleRead(EffCfg(ps, x.src), Elapsed(x), D) = NONE THEN "WaitsForever" ELSE "ReadTimeoutError"
     ELSE IF x.smode \in {"keep", "close"} THEN "OK"
     ELSE "<no legal outcome>"
 COutcome(ps, D, x) == SrcValid(x.src) => x.outcome = ExpectedOutcome(ps, D, x)
@@ -145,7 +152,7 @@ COutcome(ps, D, x) == SrcValid(x.src) => x.outcome = ExpectedOutcome(ps, D, x)
 \* The first failing clause of request i of a whole run  tr = [cfg, ctor, reqs]  ("ok" if none).
 \* This single operator is the stage-1 invariant AllClausesHold and the verdict of the trace monitor.
 ReadMatchesClockOf(ps, D, x, y) ==   \* x's read values computed against request y's clock
-    x.sent /\ x.rds # <<>> /\ \A v \in ReadVals(x) : v = RuleRead(EffCfg(ps, x.src), x.tSend - y.t0, D)
+    x.sent /\ x.rwait # NOWAIT /\ \A v \in ReadVals(x) : v = RuleRead(EffCfg(ps, x.src), x.tSend - y.t0, D)
 ReqClause(tr, i) ==
     LET ps == tr.cfg.ps  D == tr.cfg.D  x == tr.reqs[i] IN
     IF ~CInvalidRejected(ps, D, x) THEN "InvalidRejected"
@@ -158,6 +165,8 @@ ReqClause(tr, i) ==
          THEN "RequestOverridesPool"
     ELSE IF ~CConnectIsMin(ps, D, x) THEN
             IF ~CNeverLooser(ps, D, x) THEN "ConnectNeverLooser" ELSE "ConnectIsMin"
+    ELSE IF ~CSendStageUsesConnect(ps, D, x) THEN
+            IF ~CNeverLooser(ps, D, x) THEN "SendStageNeverLooser" ELSE "SendStageUsesConnect"
     ELSE IF ~CZeroRaisesWithoutWaiting(ps, D, x) THEN "ZeroRaisesWithoutWaiting"
     ELSE IF ~CReadIsMinRemaining(ps, D, x) THEN
             IF \E j \in 1..(i - 1) : SrcValid(x.src) /\ ReadMatchesClockOf(ps, D, x, tr.reqs[j])
@@ -195,11 +204,15 @@ ConnectTimeout(o) ==                                                  \* Timeout
     ELSE IF "maxconnect" \in Dev THEN Max2(o.c, o.t) ELSE Min2(o.c, o.t)
 Resolve(v, D) == IF v = UNSET THEN D ELSE v                           \* Timeout.resolve_default_timeout
 ConnectDuration(o, now) == IF "ignoreelapsed" \in Dev THEN 0 ELSE now - o.start
+Clamp(v) == IF "negativeread" \in Dev THEN v ELSE Max2(0, v)
 ReadTimeout(o, now, D) ==                                             \* Timeout.read_timeout
     IF o.t # NONE /\ o.r \notin {NONE, UNSET}
-    THEN IF o.start = NOTSTARTED THEN o.r ELSE Max2(0, Min2(o.t - ConnectDuration(o, now), o.r))
-    ELSE IF o.t # NONE THEN Max2(0, o.t - ConnectDuration(o, now))
+    THEN IF o.start = NOTSTARTED THEN o.r ELSE Clamp(Min2(o.t - ConnectDuration(o, now), o.r))
+    ELSE IF o.t # NONE THEN Clamp(o.t - ConnectDuration(o, now))
     ELSE Resolve(o.r, D)
+\* deviation "mergepool": fields the request's Timeout leaves unset are taken from the pool's
+Merge(n, p) == [t |-> IF n.t = NONE THEN p.t ELSE n.t, c |-> IF n.c = UNSET THEN p.c ELSE n.c,
+                r |-> IF n.r = UNSET THEN p.r ELSE n.r]
 
 VARIABLES cfg,          \* the configuration of this run (element of Configs)
           pc, k,        \* control state, index of the current request
@@ -208,20 +221,21 @@ VARIABLES cfg,          \* the configuration of this run (element of Configs)
           reqT,         \* the current request's Timeout object
           connOpen,     \* an idle keep-alive connection is available
           connTimeout,  \* conn.timeout, applied to the socket by the next connect/request/getresponse
+          sockT,        \* the timeout in force on the connection's socket (survives keep-alive reuse)
           clock,
           cur,          \* record of the current request (see RULES)
           hist          \* completed request records
-vars == <<cfg, pc, k, ctor, poolT, reqT, connOpen, connTimeout, clock, cur, hist>>
+vars == <<cfg, pc, k, ctor, poolT, reqT, connOpen, connTimeout, sockT, clock, cur, hist>>
 
 Blank(src, now) == [src |-> src, t0 |-> now, dial |-> NODIAL, pre |-> <<>>, tSend |-> NOSEND, sent |-> FALSE,
-                    rds |-> <<>>, waitC |-> 0, waitR |-> 0, tEnd |-> now, outcome |-> "", d |-> NOD,
+                    rds |-> <<>>, rwait |-> NOWAIT, waitC |-> 0, waitR |-> 0, tEnd |-> now, outcome |-> "", d |-> NOD,
                     cmode |-> "none", smode |-> "none"]
 NoTimeout == NewTimeout([t |-> NONE, c |-> NONE, r |-> NONE])
 
 Init == /\ cfg \in Configs
         /\ pc = "ctor" /\ k = 1 /\ ctor = ""
         /\ poolT = NoTimeout /\ reqT = NoTimeout
-        /\ connOpen = FALSE /\ connTimeout = NONE /\ clock = 0
+        /\ connOpen = FALSE /\ connTimeout = NONE /\ sockT = NONE /\ clock = 0
         /\ cur = Blank([kind |-> "omit", t |-> UNSET, c |-> UNSET, r |-> UNSET], 0)
         /\ hist = <<>>
 
@@ -231,13 +245,13 @@ ConstructPool ==
     /\ IF SrcValid(cfg.ps)
        THEN /\ poolT' = NewTimeout(Norm(cfg.ps)) /\ ctor' = "ok" /\ pc' = "idle"
        ELSE /\ ctor' = "ValueError" /\ pc' = "done" /\ UNCHANGED poolT
-    /\ UNCHANGED <<cfg, k, reqT, connOpen, connTimeout, clock, cur, hist>>
+    /\ UNCHANGED <<cfg, k, reqT, connOpen, connTimeout, sockT, clock, cur, hist>>
 
 Begin ==
     /\ pc = "idle" /\ k <= Len(cfg.rs)
     /\ cur' = Blank(cfg.rs[k], clock)
     /\ pc' = "gettimeout"
-    /\ UNCHANGED <<cfg, k, ctor, poolT, reqT, connOpen, connTimeout, clock, hist>>
+    /\ UNCHANGED <<cfg, k, ctor, poolT, reqT, connOpen, connTimeout, sockT, clock, hist>>
 
 Fail(outcome) == /\ cur' = [cur EXCEPT !.outcome = outcome] /\ pc' = "finish"
 
@@ -248,9 +262,10 @@ GetTimeout ==
        THEN Fail("ValueError") /\ UNCHANGED reqT
        ELSE /\ reqT' = IF cur.src.kind = "omit"
                        THEN (IF "noclone" \in Dev THEN poolT ELSE Clone(poolT))
+                       ELSE IF "mergepool" \in Dev THEN Clone(NewTimeout(Merge(Norm(cur.src), poolT)))
                        ELSE Clone(NewTimeout(Norm(cur.src)))
             /\ pc' = "startconnect" /\ UNCHANGED cur
-    /\ UNCHANGED <<cfg, k, ctor, poolT, connOpen, connTimeout, clock, hist>>
+    /\ UNCHANGED <<cfg, k, ctor, poolT, connOpen, connTimeout, sockT, clock, hist>>
 
 \* timeout_obj.start_connect()
 StartConnect ==
@@ -260,25 +275,25 @@ StartConnect ==
        ELSE /\ reqT' = [reqT EXCEPT !.start = clock]
             /\ poolT' = IF "noclone" \in Dev /\ cur.src.kind = "omit" THEN [poolT EXCEPT !.start = clock] ELSE poolT
             /\ pc' = "setconn" /\ UNCHANGED cur
-    /\ UNCHANGED <<cfg, k, ctor, connOpen, connTimeout, clock, hist>>
+    /\ UNCHANGED <<cfg, k, ctor, connOpen, connTimeout, sockT, clock, hist>>
 
 \* conn.timeout = Timeout.resolve_default_timeout(timeout_obj.connect_timeout)
 SetConnTimeout ==
     /\ pc = "setconn"
     /\ connTimeout' = Resolve(ConnectTimeout(reqT), cfg.D)
     /\ pc' = "validate"
-    /\ UNCHANGED <<cfg, k, ctor, poolT, reqT, connOpen, clock, cur, hist>>
+    /\ UNCHANGED <<cfg, k, ctor, poolT, reqT, connOpen, sockT, clock, cur, hist>>
 
 \* HTTPConnection._new_conn -> create_connection((host, port), self.timeout): the environment decides
 \* how long the attempt takes (it may overrun: name resolution is not bounded by the timeout) or
 \* lets it time out after exactly the timeout it was given
 Dial(nextpc) ==
     \E d \in Durations :
-      \/ /\ clock' = clock + d /\ connOpen' = TRUE /\ pc' = nextpc
+      \/ /\ clock' = clock + d /\ connOpen' = TRUE /\ pc' = nextpc /\ sockT' = connTimeout
          /\ cur' = [cur EXCEPT !.dial = connTimeout, !.pre = Append(@, connTimeout), !.d = d,
                                !.cmode = "ok", !.waitC = d]
       \/ /\ IsNum(connTimeout) /\ d > connTimeout
-         /\ clock' = clock + connTimeout /\ connOpen' = FALSE /\ pc' = "finish"
+         /\ clock' = clock + connTimeout /\ connOpen' = FALSE /\ pc' = "finish" /\ UNCHANGED sockT
          /\ cur' = [cur EXCEPT !.dial = connTimeout, !.d = d, !.cmode = "timeout", !.waitC = connTimeout,
                                !.outcome = "ConnectTimeoutError"]
 
@@ -287,7 +302,7 @@ Validate ==
     /\ pc = "validate"
     /\ IF cfg.sch = "https" /\ ~connOpen
        THEN Dial("request")
-       ELSE pc' = "request" /\ UNCHANGED <<connOpen, clock, cur>>
+       ELSE pc' = "request" /\ UNCHANGED <<connOpen, sockT, clock, cur>>
     /\ UNCHANGED <<cfg, k, ctor, poolT, reqT, connTimeout, hist>>
 
 \* HTTPConnection.request: "if self.sock is not None: self.sock.settimeout(self.timeout)", else connect
@@ -295,7 +310,7 @@ Request ==
     /\ pc = "request"
     /\ IF connOpen
        THEN /\ cur' = [cur EXCEPT !.pre = Append(@, connTimeout)] /\ pc' = "send"
-            /\ UNCHANGED <<connOpen, clock>>
+            /\ sockT' = connTimeout /\ UNCHANGED <<connOpen, clock>>
        ELSE Dial("send")
     /\ UNCHANGED <<cfg, k, ctor, poolT, reqT, connTimeout, hist>>
 
@@ -303,7 +318,7 @@ Send ==
     /\ pc = "send"
     /\ cur' = [cur EXCEPT !.tSend = clock, !.sent = TRUE]
     /\ pc' = "readtimeout"
-    /\ UNCHANGED <<cfg, k, ctor, poolT, reqT, connOpen, connTimeout, clock, hist>>
+    /\ UNCHANGED <<cfg, k, ctor, poolT, reqT, connOpen, connTimeout, sockT, clock, hist>>
 
 \* read_timeout = timeout_obj.read_timeout; "if read_timeout == 0: raise ReadTimeoutError"
 ComputeRead ==
@@ -312,18 +327,25 @@ ComputeRead ==
        IF rt = 0 /\ "nozerocheck" \notin Dev
        THEN /\ Fail("ReadTimeoutError") /\ connOpen' = FALSE /\ UNCHANGED connTimeout
        ELSE /\ connTimeout' = rt /\ pc' = "getresponse" /\ UNCHANGED <<cur, connOpen>>
-    /\ UNCHANGED <<cfg, k, ctor, poolT, reqT, clock, hist>>
+    /\ UNCHANGED <<cfg, k, ctor, poolT, reqT, sockT, clock, hist>>
 
 \* HTTPConnection.getresponse: self.sock.settimeout(self.timeout), then wait for the server
 GetResponse ==
     /\ pc = "getresponse"
-    /\ \/ \E sm \in {"keep", "close"} :
-            /\ cur' = [cur EXCEPT !.rds = Append(@, connTimeout), !.smode = sm, !.outcome = "OK"]
-            /\ connOpen' = (sm = "keep") /\ UNCHANGED clock
-       \/ /\ IsNum(connTimeout)
-          /\ cur' = [cur EXCEPT !.rds = Append(@, connTimeout), !.smode = "silent", !.waitR = connTimeout,
-                                !.outcome = "ReadTimeoutError"]
-          /\ connOpen' = FALSE /\ clock' = clock + connTimeout
+    /\ LET reapply == "noreapply" \notin Dev
+           inforce == IF reapply THEN connTimeout ELSE sockT
+           rds2    == IF reapply THEN Append(cur.rds, connTimeout) ELSE cur.rds IN
+       /\ sockT' = inforce
+       /\ \/ \E sm \in {"keep", "close"} :
+               /\ cur' = [cur EXCEPT !.rds = rds2, !.rwait = inforce, !.smode = sm, !.outcome = "OK"]
+               /\ connOpen' = (sm = "keep") /\ UNCHANGED clock
+          \/ /\ IsNum(inforce) /\ inforce >= 0
+             /\ cur' = [cur EXCEPT !.rds = rds2, !.rwait = inforce, !.smode = "silent", !.waitR = inforce,
+                                   !.outcome = "ReadTimeoutError"]
+             /\ connOpen' = FALSE /\ clock' = clock + inforce
+          \/ /\ inforce = NONE              \* a silent server and no timeout: the caller waits forever
+             /\ cur' = [cur EXCEPT !.rds = rds2, !.rwait = inforce, !.smode = "silent", !.outcome = "WaitsForever"]
+             /\ connOpen' = FALSE /\ UNCHANGED clock
     /\ pc' = "finish"
     /\ UNCHANGED <<cfg, k, ctor, poolT, reqT, connTimeout, hist>>
 
@@ -333,7 +355,7 @@ Finish ==
     /\ clock' = clock + Gap
     /\ k' = k + 1
     /\ pc' = IF k + 1 > Len(cfg.rs) THEN "done" ELSE "idle"
-    /\ UNCHANGED <<cfg, ctor, poolT, reqT, connOpen, connTimeout, cur>>
+    /\ UNCHANGED <<cfg, ctor, poolT, reqT, connOpen, connTimeout, sockT, cur>>
 
 Next == ConstructPool \/ Begin \/ GetTimeout \/ StartConnect \/ SetConnTimeout \/ Validate \/ Request
         \/ Send \/ ComputeRead \/ GetResponse \/ Finish
@@ -343,7 +365,9 @@ Spec == Init /\ [][Next]_vars
 (* Stage 1: the MODEL satisfies the RULES                                    *)
 
 Run == [cfg |-> cfg, ctor |-> ctor, reqs |-> hist]
-Done(P(_, _, _)) == \A i \in 1..Len(hist) : P(cfg.ps, cfg.D, hist[i])
+\* hist only grows in Finish (pc' \in {"idle", "done"}): evaluating the completed records there is enough
+Settled == pc \in {"idle", "done"}
+Done(P(_, _, _)) == Settled => \A i \in 1..Len(hist) : P(cfg.ps, cfg.D, hist[i])
 
 TypeOK == /\ pc \in {"ctor", "idle", "gettimeout", "startconnect", "setconn", "validate", "request", "send",
                      "readtimeout", "getresponse", "finish", "done"}
@@ -371,7 +395,8 @@ ClocksIndependent ==
 LiveValuesMatchRules ==
     /\ pc \in {"validate", "request", "send"} => connTimeout = RuleConnect(EffCfg(cfg.ps, cur.src), cfg.D)
     /\ pc = "getresponse" => connTimeout = RuleRead(EffCfg(cfg.ps, cur.src), clock - cur.t0, cfg.D)
+    /\ pc = "send" => sockT = connTimeout      \* the socket carries what conn.timeout says while sending
 \* the operator the trace monitor uses gives "ok" on every completed behaviour of the model
-AllClausesHold == \A i \in 1..Len(hist) : ReqClause(Run, i) = "ok"
+AllClausesHold == Settled => \A i \in 1..Len(hist) : ReqClause(Run, i) = "ok"
 ModelRunAccepted == pc = "done" => TraceVerdict(Run)[2] = "ok"
 =============================================================================
